@@ -251,6 +251,7 @@ func render(name string, v tq.EncoderDecoder) string {
 func c04One(c *Ctx, name string, in []byte, measure bool) {
 	c.R.Eval()
 	cs := c04Case{Decoder: name, Input: fmt.Sprintf("%x", in)}
+	c.Cur(cs) // a fatal error of the runtime (stack overflow, out of memory) cannot be recovered: written ahead for the parent
 	fail := func(kind, what string) {
 		c.R.Violate(name+"/"+kind, fmt.Sprintf("%s on %d-byte input: %s", name, len(in), what), cs)
 	}
@@ -360,6 +361,7 @@ func c04One(c *Ctx, name string, in []byte, measure bool) {
 func c04Fields(c *Ctx, in []byte) {
 	for typ := 1; typ <= 3; typ++ {
 		c.R.Eval()
+		c.Cur(c04Case{Decoder: fmt.Sprintf("Fields%d", typ), Input: fmt.Sprintf("%x", in)})
 		req := tq.Request{Header: tq.Header{Type: tq.HeaderType(typ)}, Body: append(make([]byte, 0, len(in)), in...)}
 		if p := safely(func() { req.Fields() }); p != "" {
 			c.R.Violate("Request.Fields/panic", fmt.Sprintf("Request.Fields panicked on type %d: %s", typ, p), c04Case{Decoder: fmt.Sprintf("Fields%d", typ), Input: fmt.Sprintf("%x", in)})
